@@ -454,7 +454,16 @@ def t_chain_@@(env, v):
     else:
         st = SA.lambda_stmt(lambda: SA.select(t.c.id), **kw)
         d = SA.select(t.c.id)
-    plus = (lambda st_, fn: st_ + fn) if "%%" == "plus" else (lambda st_, fn: st_.add_criteria(fn))
+    if "%%" == "plus":
+        plus = lambda st_, fn: st_ + fn  # noqa: E731
+    elif "%%" == "iadd":
+
+        def plus(st_, fn):
+            st_ += fn
+            return st_
+
+    else:
+        plus = lambda st_, fn: st_.add_criteria(fn)  # noqa: E731
     for link in v["links"]:
         if link == "wa":
             st = plus(st, lambda q: q.where(t.c.x > a))
@@ -482,12 +491,18 @@ def t_chain_@@(env, v):
 '''
 
 
+_COPIES = []
+
+
 def _make_chain(opt, form):
     """one copy of the chain builder per (root option, link form): its lambdas are distinct
     code objects, so the links are analysed for the first time (AnalyzedCode is cached per
     code object) under exactly that option and form"""
     ns = {"SA": None, "ROOT_OPTS": ROOT_OPTS, "_col": _col}
-    code = compile(_CHAIN_SRC.replace("@@", opt).replace("%%", form), "<c17-chain-%s-%s>" % (opt, form), "exec")
+    # code objects compare BY VALUE (file name excluded): shift every copy by a different number
+    # of lines so that its lambdas are different keys of AnalyzedCode._fns / the lambda cache
+    _COPIES.append((opt, form))
+    code = compile("\n" * (200 * len(_COPIES)) + _CHAIN_SRC.replace("@@", opt).replace("%%", form), "<c17-chain-%s-%s-%d>" % (opt, form, len(_COPIES)), "exec")
 
     def fn(env, v, _ns=ns, _code=code):
         if "t_chain_" + opt not in _ns:
@@ -738,6 +753,39 @@ def model_case(ctx, name, seq, hist, corr):
     corr["req"].append("lambda history " + ";".join(steps))
 
 
+DIRECTED_FORMS = ["plus", "iadd", "add_criteria"]
+DIRECTED = {(o, f): _make_chain(o, f) for o in sorted(ROOT_OPTS) for f in DIRECTED_FORMS}
+
+
+def directed_chain_matrix(ctx, env, record=True):
+    """always-run matrix: every per-lambda option on the root x {+, +=, add_criteria} x a
+    trailing link whose closure scalar / IN list / column changes between invocations.
+    Uses its own code copies, so each link is analysed for the first time right here."""
+    from harness import lib_binds as lb
+
+    nviol = 0
+    xs = lb.X_VALUES
+    for (opt, form), fn in sorted(DIRECTED.items()):
+        name = "directed_%s_%s" % (opt, form)
+        TEMPLATES.setdefault(name, (fn, []))
+        for link, seq in (
+            ("wa", [{"a": xs[2]}, {"a": xs[7]}, {"a": xs[4] + 1}]),
+            ("win", [{"vals": [xs[1], xs[3]]}, {"vals": [xs[8]]}, {"vals": [xs[0], xs[5], xs[9]]}]),
+            ("wc", [{"col": "x", "a": xs[3]}, {"col": "y", "a": 2004}, {"col": "x", "a": xs[9]}]),
+            ("ws", [{"s": lb.S_VALUES[2]}, {"s": lb.S_VALUES[9]}]),
+        ):
+            hist = []
+            for d in seq:
+                v = {"a": xs[5], "b": 2016, "s": lb.S_VALUES[4], "vals": [xs[2]], "col": "x", "root": "r1", "links": [link]}
+                v.update(d)
+                hist.append(v)
+            nviol += check_history(ctx, env, name, hist, None, record=False)
+            if record:
+                ctx.case(json.dumps([name, hist], sort_keys=True), nontrivial=True)
+                ctx.count("directed-chain-matrix")
+    return nviol
+
+
 def chain_corr(ctx, chains):
     """lambda-cache hit/miss of the LAST link of every chain built during the run vs the
     Lean model keyed by the FULL path of code objects (root first) + closure key"""
@@ -746,6 +794,10 @@ def chain_corr(ctx, chains):
     for chain in chains:
         last = chain[0]
         path = [codes.setdefault(el.fn.__code__, len(codes) + 1) for el in reversed(chain)]
+        from sqlalchemy.sql import cache_key as _ck
+
+        if last.closure_cache_key is _ck.NO_CACHE or any(getattr(el, "closure_cache_key", None) is _ck.NO_CACHE for el in chain):
+            continue  # not cached at all: a fresh NonAnalyzedFunction per construction
         try:
             sid = sids.setdefault(last.closure_cache_key, len(sids))
         except TypeError:
@@ -756,6 +808,10 @@ def chain_corr(ctx, chains):
         steps.append("%s:%d" % (".".join(str(x) for x in path), sid))
     if steps:
         out = ctx.driver(["lambda chains " + ";".join(steps)])[0].split(";")
+        # the real lambda cache is a bounded LRU: an entry the model still has may have been
+        # evicted (real miss, model hit).  The reverse — a real hit where no entry for this
+        # path can exist — is what must never happen.
+        impl = [i if m == "miss" else "hit" for i, m in zip(impl, out)]
         ctx.correspond("corr/c17:linked-lambda-cache-vs-Model.Lambda.runChains", [{"chain-steps": len(steps)}], [";".join(impl)], [";".join(out)])
         ctx.count("chain-model-steps", len(steps))
 
@@ -773,7 +829,8 @@ def run(ctx, deep=False):
     thorough = ctx.tier == "thorough" or deep
     env = Env()
     corr = {"cases": [], "impl": [], "req": []} if ctx.driver_ok() else None
-    names = sorted(TEMPLATES)
+    directed_chain_matrix(ctx, env)
+    names = sorted(k for k in TEMPLATES if not k.startswith("directed_"))
     n = 2500 if thorough else 420
     for i in range(n):
         name = names[i % len(names)] if i < 2 * len(names) else ctx.rng.choice(names)
@@ -806,7 +863,7 @@ def search(ctx, broken):
     if ctx.violations:
         return
     sub = vlib.Ctx(ctx.pid, "thorough", ctx.seed + 1, ctx.level)
-    names = sorted(TEMPLATES)
+    names = sorted(k for k in TEMPLATES if not k.startswith("directed_"))
     for i in range(1500):
         name = sub.rng.choice(names)
         seq = [gen_values(sub.rng, TEMPLATES[name][1], True) for _ in range(sub.rng.randint(2, 10))]
@@ -820,6 +877,8 @@ def replay(ctx, obj):
 
     warnings.simplefilter("ignore")
     c = obj["case"]
+    for (o_, f_), fn_ in DIRECTED.items():
+        TEMPLATES.setdefault("directed_%s_%s" % (o_, f_), (fn_, []))
     bad = check_history(ctx, Env(), c["tmpl"], c["seq"], None, record=False) > 0
     for v in ctx.violations:
         print("replay C17: %s — %s" % (v["key"], v["detail"][:600]))
